@@ -251,7 +251,7 @@ def _rand_cands(rng, ver, ipv):
 def generate(rng, tier):
     mult = 1 if tier == 'quick' else 4
     cases = []
-    for _ in range(2600 * mult):
+    for _ in range(9000 * mult):
         ver = rng.choice((4, 6))
         y = _rand_y(rng, ver)
         x = _rand_x(rng, y)
@@ -262,7 +262,7 @@ def generate(rng, tier):
             if x[0] == 'A' or y[0] == 'N':
                 form = 'str'
         cases.append(_contains_case(mode, y, x, form))
-    for _ in range(500 * mult):
+    for _ in range(1500 * mult):
         ver = rng.choice((4, 6))
         w = W[ver]
         m = (1 << w) - 1
